@@ -64,6 +64,14 @@ def text_invalid_cases(rng, tier):
                 texts += [("%04d-W%02d-%d" % (y, w, dow), "W %d %d %d" % (y, w, dow)), ("%04dW%02d%d" % (y, w, dow), "W %d %d %d" % (y, w, dow))]
             for tx, date in texts:
                 cases.append(Case(["parse %s 2 0 0 0 0 0 0 0 0 %s" % (md, enc(tx))], ["text-date", "mode:" + md], md=md, fam="X", date=date, text=tx))
+        # fractions of seven and more digits at the two edges: 24:00 plus anything is impossible however small,
+        # and a last unit just below its bound is in range however close
+        for tt, ok in [("T24:00:00.0000001Z", False), ("T24:00,0000004Z", False), ("T24.00000049Z", False), ("T24:00:00.00000001", False),
+                       ("T23:59:59.9999996", True), ("T12:59.99999951", True), ("T23,9999999", True), ("T23:59:59.99999999Z", True),
+                       ("T00:00:00.0000001", True)]:
+            for dd in ("2000-01-01", "2000-12-30"):
+                cases.append(Case(["parse %s 2 0 0 0 0 0 0 0 0 %s" % (md, enc(dd + tt))], ["text-time", "long-fraction", "mode:" + md],
+                                  md=md, fam="Y", ok=ok, text=dd + tt))
         for tt, ok in [("T24:00", True), ("T24:01", False), ("T24:00:01", False), ("T25", False), ("T23:60", False), ("T23:59:60", False),
                        ("T23:59:59", True), ("T00", True), ("T12:00+24:00", True), ("T12:00+99:59", True), ("T12:00-99:59", True),
                        ("T12:00+00:60", False), ("T12:00+2360", False), ("T24,5", False), ("T24:00,5", False), ("T24:00:00,5", False)]:
